@@ -533,6 +533,23 @@ Definition wms_map (prune combine : bool) (fetch : src -> option layer)
   let rl := if combine then combined_layers rl else rl in
   merge n o (rendered fetch rl) None.
 
+(* ------------------------------------------------------------------ request beyond the SRS extent of the service *)
+
+(* WMSServer.map with srs_extents: when the requested bbox is not inside the extent configured for the SRS, the
+   layers are selected, rendered and merged for the part inside the extent (sub bbox, sub size - all geometric inputs
+   of the model, clip masks included, are those of the sub query) and
+     SubImageSource(result, size=orig_query.size, offset=offset, image_opts=img_opts)
+   pastes the merged image into a transparent image (create_image with transparent forced to True) of the
+   requested size.  placement: for every pixel of the requested image the index of the pixel of the merged
+   sub image that lands there, None outside the extent. *)
+Definition sub_image_source (o : ropts) (sub : image) (placement : list (option nat)) : image :=
+  let o' := mk_ropts (ro_mode o) (Some true) (ro_bgcolor o) in
+  mk_image (create_mode o') T_none
+           (map (fun p => match p with
+                          | Some k => nth k (view sub) (create_px o')
+                          | None => create_px o'
+                          end) placement).
+
 (* ------------------------------------------------------------------ make_transparent (transparent_color) *)
 
 (* image/__init__.py _make_transparent on an RGB / RGBA / P(resolved) image *)
